@@ -110,7 +110,7 @@ Proof.
   { unfold lims. repeat split; try assumption.
     - apply pool_le_length in Hpi. rewrite Hstr in Hsm2. lia.
     - rewrite Hgf, map_length. rewrite Hfns, app_length in Hsm4. lia. }
-  pose proof (compile_stmt_wf _ _ _ _ _ _ _ _ _ Hc Hlims) as Hwf.
+  pose proof (compile_stmt_wf _ _ _ _ _ _ _ _ _ Hc Hlims (stmt_ok_lits_small _ (proj2 Hfd))) as Hwf.
   assert (Hregion : firstn (fe_len fe) (skipn (fe_off fe) (m_code M)) = bs).
   { rewrite Hcode, skipn_pre by lia. rewrite Hlen. exact Hbytes. }
   assert (Hbl : (Z.of_nat (length bs) < 2147483648)%Z).
